@@ -85,7 +85,8 @@ for name, f, old, new, cfgs in M:
     env = dict(os.environ, VERIF_REPO=WT, C08_CONFIGS=cfgs)
     p = subprocess.run(['./check','C08','--tier','quick','--seed','0'],cwd='/verif',env=env,capture_output=True,text=True)
     kinds = []
-    for v in sorted(glob.glob('/verif/replays/C08/violation_*.json')):
+    import re
+    for v in re.findall(r'VIOLATION property=C08 replay=(\S+)', p.stdout):
         d = json.load(open(v)); m = d['match']
         key = (m.get('kind'), m.get('site') or m.get('field') or m.get('what') or '')
         kinds.append(key)
